@@ -258,7 +258,7 @@ dd judge_derivative(const object_t& o, const evec& x, const double f0, const eve
     }
     if (err1 <= t.tol1)
     {
-        return dd::agree_h1_only;
+        return dd::agree_h1_only; // only the coarse step is explained by its own truncation estimate: not a resolved comparison
     }
     if (trunc > 0.25 * std::min(err1, err2))
     {
@@ -272,7 +272,7 @@ const char* name_of(const dd v)
     switch (v)
     {
     case dd::agree: return "derivative-agrees";
-    case dd::agree_h1_only: return "derivative-agrees-at-h1-only";
+    case dd::agree_h1_only: return "explained-by-truncation-at-h1-only(skipped)";
     case dd::kink: return "kink-along-direction(skipped)";
     case dd::unresolved: return "steps-disagree-with-each-other(skipped)";
     case dd::nonfinite: return "nonfinite-neighbour(skipped)";
@@ -348,9 +348,16 @@ evaluated_t check_object(report_t& r, const std::string& one, const object_t& o,
             const auto  v = judge_derivative(o, x, f0, e.g[i], d, t);
             r.evaluations += 1;
             ++dd_counts[static_cast<size_t>(v)];
-            if (v == dd::agree || v == dd::agree_h1_only || v == dd::violation)
+            if (v == dd::agree || v == dd::violation)
             {
                 r.nontrivial += 1;
+            }
+            if (v == dd::unresolved || v == dd::agree_h1_only)
+            {
+                // rare: written to the shard log so that a skipped comparison can be inspected by hand
+                std::fprintf(stderr, "NOTE %s %s: %s x=%s d=%s g.d=%.17g cd(h1)=%.17g cd(h2)=%.17g tol1=%.3g tol2=%.3g D1=%.3g D2=%.3g\n",
+                             one.c_str(), name_of(v), o.desc.c_str(), show(x).c_str(), show(d).c_str(), t.gd2, t.cd1, t.cd2, t.tol1,
+                             t.tol2, t.D1, t.D2);
             }
             if (v == dd::violation)
             {
